@@ -1,5 +1,5 @@
 """which contract modules exist, and per property: claimed level, assumptions, bounded stand-ins"""
-MODULES = ['contracts.c19_boxes', 'contracts.c01_membership', 'contracts.c04_bbox', 'contracts.c15_motions', 'contracts.c02_masks', 'contracts.c17_validation', 'contracts.c16_values', 'contracts.c20_pixcoord', 'contracts.c06_sky', 'contracts.c07_wcs', 'contracts.c08_algebra']
+MODULES = ['contracts.c19_boxes', 'contracts.c01_membership', 'contracts.c04_bbox', 'contracts.c15_motions', 'contracts.c02_masks', 'contracts.c17_validation', 'contracts.c16_values', 'contracts.c20_pixcoord', 'contracts.c06_sky', 'contracts.c07_wcs', 'contracts.c08_algebra', 'contracts.c05_mask_apply', 'contracts.c18_artists']
 
 A_PY = 'A-PY: CPython semantics of the modelled subset (ints exact, dict/list/str methods, left-to-right evaluation)'
 A_REAL = 'A-REAL: floats are treated as real numbers (no rounding, no overflow)'
@@ -56,4 +56,11 @@ PROPERTIES = {
                 assumptions=[A_PY, A_REAL, A_NUMPY, A_UNITS,
                              'frame obligations: every write (attribute, item, in-place operator, write through an array view) to an object that existed before the call must be listed in the contract\'s `modifies`; writes to non-public instance attributes are judged by their observable effect (follows_assignment contracts) rather than flagged',
                              'history independence is the conjunction: no operation writes pre-existing or module-level state + results are functions of the arguments (each verified from an arbitrary well-formed state); a literal fresh-interpreter comparison is not performed']),
+    'C05': dict(level='proof', trusted=[A_PY, A_REAL, A_INT, A_NUMPY, 'numpy basic slicing (with its clipping / negative-index wrapping), boolean-mask assignment and selection (row-major), np.zeros/asanyarray/copy as modelled in pyvc/builtins_.py and m_numpy.py'],
+                assumptions=[A_PY, A_REAL, A_INT, A_NUMPY,
+                             'arrays are index functions with symbolic shapes; dtype promotion, Quantity unit re-attachment and NaN/inf fill values are not covered by the VCs',
+                             'boolean selections are compared structurally: same window, same values and same selection mask at every pixel imply the same row-major sequence']),
+    'C18': dict(level='proof', trusted=[A_PY, A_REAL, A_TRIG, A_NUMPY, A_UNITS, 'A-MPL: documented geometry of matplotlib Circle/Ellipse/Rectangle(rotation about xy)/Polygon/Arrow/Line2D/Text/PathPatch constructors; a patch outline is an abstract polyline determined by the patch class and its geometric arguments (externals/mpl_*.py)'],
+                assumptions=[A_PY, A_REAL, A_TRIG, A_NUMPY, A_UNITS, 'Bezier approximation tolerance, fill rule and rendering are outside the proof',
+                             'the artist is compared with the verified membership function (C01) boundary-agnostically; regular polygons share the polygon code path']),
 }
